@@ -858,8 +858,10 @@ func (vc *VC) callByContract(fr *frame, st *State, ct *Contract, fo *types.Func,
 		nh := vc.fresh("H!"+k, oldH.Sort)
 		st.heaps[k] = nh
 		vc.linkHeaps(k, nh, oldH)
+		vc.linkHeapsBack(k, nh, oldH)
 		vc.frameFacts(st, k, oldH, nh, locs, old.alloc)
 		vc.heapInvariant(nh, st.alloc, st.pc)
+		vc.heapRange(k, nh, st.pc)
 	}
 	// results
 	res := sig.Results()
@@ -892,7 +894,13 @@ func (vc *VC) callByContract(fr *frame, st *State, ct *Contract, fo *types.Func,
 		vc.assume(st, mkEnv(st, old, old.alloc).evalBool(en.Expr))
 	}
 	if fr != nil {
+		// hints after a call see the Go locals in scope at the call
+		savedPos := fr.specPos
+		if pos.IsValid() && !fr.inlined {
+			fr.specPos = pos
+		}
 		vc.applyHints(fr, st, "after:"+short)
+		fr.specPos = savedPos
 	}
 	return out
 }
